@@ -37,6 +37,28 @@ fn challenge_len32_exact() {
     }
 }
 
+/// a challenge whose LENGTH differs from 43 (every length 0..=48, contents symbolic ASCII) is rejected with ChallengeInvalid
+/// for every 32-byte payload — prefixes and extensions of the genuine challenge included
+#[kani::proof]
+#[kani::unwind(50)]
+fn challenge_wrong_length_rejected() {
+    let payload: [u8; 32] = kani::any();
+    let buf: [u8; 48] = kani::any();
+    let mut i = 0;
+    while i < 48 {
+        kani::assume(buf[i] < 128);
+        i += 1;
+    }
+    let n: usize = kani::any();
+    kani::assume(n <= 48 && n != 43);
+    let s = unsafe { core::str::from_utf8_unchecked(&buf[..n]) };   // ASCII only, hence valid UTF-8
+    let cdj = ClientDataJson { challenge: s, type_field: "webauthn.get" };
+    let e = Env::default();
+    set_trap_mode(TrapMode::Expect(3114));
+    validate_challenge(&e, &cdj, &Bytes::from_array(&e, &payload));
+    panic!("accepted a challenge of the wrong length");
+}
+
 /// the genuine challenge of every 32-byte payload is accepted
 #[kani::proof]
 #[kani::unwind(45)]
